@@ -12,7 +12,7 @@ import (
 func init() { register("C02", propC02) }
 
 func propC02(c *Ctx) {
-	c.Explanation = "Liveness under loss is a property of timed executions and is not decided. Decided (path shapes, for all inputs and schedules): (W1) produce => notify: a segment enqueued by HandlePacket asserts newSegmentWaker; data queued by Write is processed under TryLock or asserts sndWaker; the FIN queued by Shutdown asserts sndCloseWaker; a zero->non-zero receive-window transition in readLocked/SetSockOpt notifies the protocol goroutine, whose handler sends the window-reopening ACK exactly when the window last announced (after scaling) was zero; (W2) every waker field of endpoint/sender/keepalive is registered with a handler in protocolMainLoop and every notify flag is tested in the notification handler or the listen loop; the handshake registers resend, notification and new-segment wakers; (W3) the retransmission timer is (re)armed with the current RTO whenever sndUna != sndNxt (data or FIN outstanding), the SYN resend timer exists before the first SYN and is reset on each resend; (W4) FIN last, nothing after it: Write queues data only while sndClosed is false, in the sndBufMu critical section; Shutdown sets sndClosed in the critical section that pushes the zero-length segment at the BACK of the send queue; sendData turns only the last, zero-length segment into FIN|ACK; the receive side closes only on a consumed in-order FIN (one sequence number, ACKed at once, readers told) and ignores everything afterwards; (W5) the main loop runs until rcv.closed && snd.closed && sndUna == sndNxtList. (W7) logicalLen = payload + SYN + FIN (shared); a zero-length segment is consumed only exactly at rcvNxt (W4). (W8) the lazy retransmission timer's typestate (shared with C05/L6): an expiry ends disabled, so the next enable re-arms. (W9) teardown happens exactly once: the worker if one runs (Close sets workerCleanup and wakes it; completeWorkerLocked cleans up when asked), else Close; workerRunning is set before the goroutine starts; protocol goroutines are started only by connect, Listen and startAcceptedLoop. W4 also holds the drain-loop rows: parked segments are offered with their payload length. NOT decided: that retransmission eventually succeeds, timing, window probing by the peer."
+	c.Explanation = "Liveness under loss is a property of timed executions and is not decided. Decided (path shapes, for all inputs and schedules): (W1) produce => notify: a segment enqueued by HandlePacket asserts newSegmentWaker; data queued by Write is processed under TryLock or asserts sndWaker; the FIN queued by Shutdown asserts sndCloseWaker; a zero->non-zero receive-window transition in readLocked/SetSockOpt notifies the protocol goroutine, whose handler sends the window-reopening ACK exactly when the window last announced (after scaling) was zero; (W2) every waker field of endpoint/sender/keepalive is registered with a handler in protocolMainLoop and every notify flag is tested in the notification handler or the listen loop; the handshake registers resend, notification and new-segment wakers; (W3) the retransmission timer is (re)armed with the current RTO whenever sndUna != sndNxt (data or FIN outstanding), the SYN resend timer exists before the first SYN and is reset on each resend; (W4) FIN last, nothing after it: Write queues data only while sndClosed is false, in the sndBufMu critical section; Shutdown sets sndClosed in the critical section that pushes the zero-length segment at the BACK of the send queue; sendData turns only the last, zero-length segment into FIN|ACK; the receive side closes only on a consumed in-order FIN (one sequence number, ACKed at once, readers told) and ignores everything afterwards; (W5) the main loop runs until rcv.closed && snd.closed && sndUna == sndNxtList. (W7) logicalLen = payload + SYN + FIN (shared); a zero-length segment is consumed only exactly at rcvNxt (W4). (W8) the lazy retransmission timer's typestate (shared with C05/L6): an expiry ends disabled, so the next enable re-arms. (W9) teardown happens exactly once: the worker if one runs (Close sets workerCleanup and wakes it; completeWorkerLocked cleans up when asked), else Close; workerRunning is set before the goroutine starts; protocol goroutines are started only by connect, Listen and startAcceptedLoop. W4 also holds the drain-loop rows: parked segments are offered with their payload length. Write advances both byte counters (sndBufUsed, sndBufInQueue) by exactly the accepted view's length (rows of W1). (W10) an acceptable ACK frees exactly the acknowledged amount of send buffer and releases exactly the acknowledged segments, and every received segment ends with an attempt to send; (W11) every hand-off to the receive list wakes readers; (W12) received data is acknowledged at the end of every batch and leftover segments re-arm the worker; (W13) Shutdown accounts for the FIN in the send queue and notifies the worker; (W14) the TCP emitters return the result of the one packet write they perform. (W15) the inbound segment queue: charged on enqueue, credited by the same amount on dequeue, empty exactly when nothing is charged. NOT decided: that retransmission eventually succeeds, timing, window probing by the peer."
 	ep := "(*tcp.endpoint)."
 	w1 := c.Rule("W1", "K1/K2/K5 site tables", "produce => notify", 12)
 	if fn := c.Fn(w1, ep+"HandlePacket"); fn != nil {
@@ -28,6 +28,8 @@ func propC02(c *Ctx) {
 		c.CheckSites(w1, fn, []SiteSpec{
 			{Kind: "call", Target: "(*tcp.segmentList).PushBack", Args: []string{"&$0.sndQueue", "tcp.newSegmentFromView(&$0.route, $0.id, " + pl + "#0)"}, Guards: g, Exact: true, N: 1, Why: "data is queued at the back, only in connected state, with buffer room, and only while the send side is not closed"},
 			{Kind: "call", Target: ep + "handleWrite", Args: []string{"$0"}, Guards: append(append([]string{}, g...), "(*tmutex.Mutex).TryLock(&$0.workMu)"), Exact: true, N: 1, Why: "the writer processes the queue itself when it gets the work mutex ..."},
+			{Kind: "store", Target: "tcp.endpoint.sndBufUsed", Args: []string{"$0", "($0.sndBufUsed + builtin:len(" + pl + "#0))"}, Guards: g, Exact: true, N: 1, Why: "buffer accounting grows by the bytes actually ACCEPTED (the view Payload.Get returned), not by what was offered"},
+			{Kind: "store", Target: "tcp.endpoint.sndBufInQueue", Args: []string{"$0", "($0.sndBufInQueue + builtin:len(" + pl + "#0))"}, Guards: g, Exact: true, N: 1, Why: "... and so does the count of queued bytes from which handleWrite advances sndNxtList: a larger count leaves sndUna != sndNxtList for ever and the connection never finishes closing"},
 			{Kind: "call", Target: "(*sleep.Waker).Assert", Args: []string{"&$0.sndWaker"}, Guards: append(append([]string{}, g...), "!(*tmutex.Mutex).TryLock(&$0.workMu)"), Exact: true, N: 1, Why: "... and otherwise wakes the protocol goroutine: queued data is never left unannounced"},
 		})
 		// W4: the sndClosed test and the PushBack are in one sndBufMu critical section
@@ -248,17 +250,16 @@ func propC02(c *Ctx) {
 		}
 	}
 
+	// ---- W10..W13: effects of tabled functions no row mentioned (effects.go)
+	senderAckRule(c, c.Rule("W10", "K7 exact-guard site table (shared with C01/R11)", "an acceptable ACK frees exactly the acknowledged amount of send buffer and releases exactly the acknowledged segments; every segment ends with an attempt to send", 9))
+	readerWakeRule(c, c.Rule("W11", "K7 exact-guard site tables (shared with C01/R13)", "every hand-off to the receive list wakes readers", 3))
+	ackGenerationRule(c, c.Rule("W12", "K7 exact-guard site table", "received data is acknowledged at the end of every batch; leftover segments re-arm the worker", 2))
+	shutdownRule(c, c.Rule("W13", "K7 exact-guard site table", "Shutdown accounts for the FIN in the send queue and notifies the worker", 4))
+
+	sendResultRule(c, c.Rule("W14", "K7 closed return tables (shared with C06/E10)", "the TCP emitters return the result of the one packet write they perform", 2), "tcp.sendTCP", "tcp.sendSynTCP")
+	segmentQueueRule(c, c.Rule("W15", "K7 closed site tables (shared with C05/L10, C01/R14)", "the inbound segment queue: charged on enqueue, credited by the same amount on dequeue, empty exactly when nothing is charged", 7))
 	// ---- W5
-	w5 := c.Rule("W5", "K5", "main loop exit condition", 3)
-	if fn := c.Fn(w5, ep+"protocolMainLoop"); fn != nil {
-		atoms := map[string]bool{}
-		for _, e := range CondEdges(fn) {
-			atoms[stripVer(e.Atom)] = true
-		}
-		for _, a := range []string{"$0.rcv.closed", "$0.snd.closed", "($0.snd.sndNxtList == $0.snd.sndUna)"} {
-			c.Check(atoms[a], w5, FuncName(fn)+"/exit-tests:"+a, c.P.Pos(fn.Pos()), "loop condition reads "+a, "main loop no longer tests "+a+" before exiting")
-		}
-	}
+	mainLoopExitRule(c, c.Rule("W5", "K5", "main loop exit condition", 3))
 	// W9: who cleans up. Close hands the cleanup to the worker exactly when one
 	// is running (and wakes it), otherwise does it itself; the worker records
 	// its end and performs the cleanup it was asked for; the running flag is
@@ -369,4 +370,23 @@ func stripVer(s string) string {
 		b.WriteByte(s[i])
 	}
 	return b.String()
+}
+
+// mainLoopExitRule: the connection worker leaves its loop only after the
+// receive side is closed, the send side is closed and everything queued has
+// been acknowledged. Dropping the receive test abandons bytes still in
+// flight from the peer (C01); dropping a send test abandons unacknowledged
+// data (C02).
+func mainLoopExitRule(c *Ctx, rule string) {
+	fn := c.Fn(rule, "(*tcp.endpoint).protocolMainLoop")
+	if fn == nil {
+		return
+	}
+	atoms := map[string]bool{}
+	for _, e := range CondEdges(fn) {
+		atoms[stripVer(e.Atom)] = true
+	}
+	for _, a := range []string{"$0.rcv.closed", "$0.snd.closed", "($0.snd.sndNxtList == $0.snd.sndUna)"} {
+		c.Check(atoms[a], rule, FuncName(fn)+"/exit-tests:"+a, c.P.Pos(fn.Pos()), "loop condition reads "+a, "main loop no longer tests "+a+" before exiting")
+	}
 }
